@@ -5,15 +5,12 @@ set_option linter.unusedVariables false
 # M-Session — the state invariant and its preservation
 
 `Inv` relates where the coroutine is (`pc`), the FSM variable and `peer.proto` (`conn`); it holds
-initially and after every `step`.  Everything the property theorems need follows from it.
+initially and after every `step`.  The property theorems follow from it.
 -/
 namespace Exa.Session
 
 @[simp] theorem andThen_fst (r : R) (f : State → R) : (r ⊳ f).1 = (f r.1).1 := rfl
 @[simp] theorem andThen_snd (r : R) (f : State → R) : (r ⊳ f).2 = r.2 ++ (f r.1).2 := rfl
-
-/-- the coroutine reads connection `c` and `c` is still `peer.proto`. -/
-def Cur (s : State) (c : Nat) : Prop := ∃ k, s.conn = some k ∧ k.id = c
 
 structure Inv (s : State) : Prop where
   backoffIdle : s.pc = .backoff → s.fsm = .idle
@@ -29,11 +26,213 @@ structure Inv (s : State) : Prop where
   openconfirm : s.fsm = .openconfirm → ∃ k, s.conn = some k ∧ s.pc = .awaitKa k.id
   established : s.fsm = .established → ∃ k, s.conn = some k ∧ s.pc = .mainLoop k.id
   notConnect : s.fsm ≠ .connect
+  active : s.fsm = .active → s.pc = .passiveWait
   connId : ∀ k, s.conn = some k → k.id < s.nextId
   awaitId : ∀ c, awaited s = some c → c < s.nextId
   up : s.isUp = true → s.fsm = .established ∨ s.pc = .done
 
 theorem inv_init (cfg : Cfg) (rib : Bool) : Inv (init cfg rib) := by
   constructor <;> simp [init, awaited]
+
+/-- API `up` is outstanding only while ESTABLISHED (or when the peer has ended for good). -/
+theorem Inv.hup {s : State} (h : Inv s) (hd : s.pc ≠ .done) : s.isUp = true → s.fsm = .established := by
+  intro hu
+  rcases h.up hu with h1 | h1
+  · exact h1
+  · exact (hd h1).elim
+
+theorem Inv.isUp_false {s : State} (h : Inv s) (hd : s.pc ≠ .done) (he : s.fsm ≠ .established) : s.isUp = false := by
+  cases hu : s.isUp
+  · rfl
+  · rcases h.up hu with h1 | h1 <;> contradiction
+
+/-! ## closed forms of the handlers (state part) -/
+
+def quietFsm (f : Fsm) : Bool := f == .idle || f == .active
+
+theorem closeP_fst (s : State) :
+    (closeP s).1 = { s with fsm := .idle, conn := none, isUp := s.isUp && quietFsm s.fsm } := by
+  simp only [closeP, apiDown, fsmTo, closeConn, andThen_fst, quietFsm]
+  cases hf : s.fsm <;> cases hc : s.conn <;> simp [hf, hc]
+
+theorem resetP_fst (s : State) :
+    (resetP s).1 = { s with fsm := .idle, conn := none, isUp := s.isUp && quietFsm s.fsm,
+                            teardown := if s.restart then none else s.teardown,
+                            refreshQ := if s.restart then 0 else s.refreshQ } := by
+  simp only [resetP, andThen_fst, closeP_fst]
+  cases hr : s.restart <;> simp [hr]
+
+/-- the state after `except NetworkError` / `except Notification`. -/
+theorem onNetErr_fst (s : State) :
+    (onNetErr s).1 =
+      { s with fsm := .idle, conn := none, restart := s.restart && canReconnect s,
+               pc := if s.restart && canReconnect s then .backoff else .done,
+               isUp := s.isUp && (quietFsm s.fsm || !canReconnect s),
+               teardown := if canReconnect s then (if s.restart then none else s.teardown) else some 3,
+               refreshQ := if s.restart && canReconnect s then 0 else s.refreshQ } := by
+  simp only [onNetErr, stopIfExhausted, stopP, fsmTo, finish, andThen_fst, resetP_fst]
+  cases hc : canReconnect s <;> cases hr : s.restart <;> simp [hc, hr, quietFsm]
+
+theorem onNotification_fst (s : State) : (onNotification s).1 = (onNetErr s).1 := rfl
+
+theorem onOther_fst (s : State) :
+    (onOther s).1 =
+      { s with fsm := .idle, conn := none, pc := if s.restart then .backoff else .done,
+               isUp := s.isUp && quietFsm s.fsm,
+               teardown := if s.restart then none else s.teardown,
+               refreshQ := if s.restart then 0 else s.refreshQ } := by
+  simp only [onOther, finish, andThen_fst, resetP_fst]
+
+theorem onNotify_fst (code sub : Nat) (s : State) :
+    (onNotify code sub s).1 =
+      { s with fsm := .idle, conn := none, restart := s.restart && canReconnect s,
+               pc := if s.restart && canReconnect s then .backoff else .done,
+               isUp := s.isUp && quietFsm s.fsm,
+               teardown := if canReconnect s then (if s.restart then none else s.teardown) else some 3,
+               refreshQ := if s.restart then 0 else s.refreshQ } := by
+  obtain ⟨cfg, fsm, pc, conn, nextId, restart, teardown, attempts, rib, rq, rp, ep, ka, up⟩ := s
+  simp only [onNotify, stopIfExhausted, stopP, fsmTo, finish, andThen_fst, resetP_fst, sendOn, canReconnect]
+  rcases Bool.eq_false_or_eq_true (cfg.maxAttempts == 0 || decide (attempts < cfg.maxAttempts)) with hcr | hcr <;>
+  cases restart <;> cases conn with
+  | none => simp [hcr, quietFsm]
+  | some c => cases hrst : c.rst <;> simp [hcr, quietFsm, hrst]
+
+/-! ## where the handlers leave the peer -/
+
+/-- where every exception handler of `_run` leaves the peer. -/
+structure Ended (s s' : State) : Prop where
+  fsm : s'.fsm = .idle
+  conn : s'.conn = none
+  pc : s'.pc = .backoff ∨ s'.pc = .done
+  nextId : s'.nextId = s.nextId
+  up : s'.isUp = true → s'.pc = .done
+
+theorem inv_of_ended {s s' : State} (h : Ended s s') : Inv s' := by
+  obtain ⟨hf, hc, hp, hn, hu⟩ := h
+  constructor <;> intros <;> simp_all [awaited]
+  all_goals (rcases hp with hp | hp <;> simp_all)
+
+theorem quiet_of_up {s : State} (hup : s.isUp = true → s.fsm = .established) (h : s.isUp = true) :
+    quietFsm s.fsm = false := by rw [hup h]; rfl
+
+theorem onNetErr_ended (s : State) (hup : s.isUp = true → s.fsm = .established) : Ended s (onNetErr s).1 := by
+  rw [onNetErr_fst]
+  refine ⟨rfl, rfl, ?_, rfl, ?_⟩
+  · cases s.restart <;> cases canReconnect s <;> simp
+  · cases hu : s.isUp
+    · simp
+    · cases hc : canReconnect s <;> simp [quiet_of_up hup hu]
+
+theorem onNotification_ended (s : State) (hup : s.isUp = true → s.fsm = .established) :
+    Ended s (onNotification s).1 := onNetErr_ended s hup
+
+theorem onOther_ended (s : State) (hup : s.isUp = true → s.fsm = .established) : Ended s (onOther s).1 := by
+  rw [onOther_fst]
+  refine ⟨rfl, rfl, ?_, rfl, ?_⟩
+  · cases s.restart <;> simp
+  · cases hu : s.isUp
+    · simp
+    · simp [quiet_of_up hup hu]
+
+theorem onNotify_ended (code sub : Nat) (s : State) (hup : s.isUp = true → s.fsm = .established) :
+    Ended s (onNotify code sub s).1 := by
+  rw [onNotify_fst]
+  refine ⟨rfl, rfl, ?_, rfl, ?_⟩
+  · cases s.restart <;> cases canReconnect s <;> simp
+  · cases hu : s.isUp
+    · simp
+    · simp [quiet_of_up hup hu]
+
+theorem Ended.trans_eq {s t u : State} (h : Ended t u) (hn : t.nextId = s.nextId) : Ended s u :=
+  ⟨h.fsm, h.conn, h.pc, by rw [h.nextId, hn], h.up⟩
+
+/-! ## congruence: `Inv` looks at `fsm`, `pc`, `conn` (id and history), `nextId`, `isUp` only -/
+
+/-- the part of a connection `Inv` speaks about. -/
+def Conn.hist (k : Conn) : Nat × Bool × Bool × Bool := (k.id, k.openSent, k.openRecv, k.kaRecv)
+
+theorem Inv.congr {s s' : State} (h : Inv s) (hf : s'.fsm = s.fsm) (hp : s'.pc = s.pc)
+    (hc : s'.conn.map Conn.hist = s.conn.map Conn.hist) (hn : s'.nextId = s.nextId) (hu : s'.isUp = s.isUp) : Inv s' := by
+  have hcase : (s'.conn = none ∧ s.conn = none) ∨
+      ∃ k k', s.conn = some k ∧ s'.conn = some k' ∧ k'.id = k.id ∧ k'.openSent = k.openSent ∧
+        k'.openRecv = k.openRecv ∧ k'.kaRecv = k.kaRecv := by
+    cases h1 : s.conn <;> cases h2 : s'.conn <;> simp [h1, h2, Conn.hist] at hc ⊢
+    exact ⟨hc.1, hc.2.1, hc.2.2.1, hc.2.2.2⟩
+  have haw : awaited s' = awaited s := by simp [awaited, hp]
+  rcases hcase with ⟨h1, h2⟩ | ⟨k, k', h1, h2, i1, i2, i3, i4⟩
+  · constructor <;> simp only [hf, hp, hn, hu, h1, haw]
+    · exact h.backoffIdle
+    · exact h.doneIdle
+    · exact h.connectingIdle
+    · intro hh; exact ⟨(h.passive hh).1, trivial⟩
+    · intro c x hh hx; cases hx
+    · intro c x hh hx; cases hx
+    · intro c x hh hx; cases hx
+    · intro hh; obtain ⟨x, hx, _⟩ := h.opensent hh; rw [h2] at hx; cases hx
+    · intro hh; obtain ⟨x, hx, _⟩ := h.openconfirm hh; rw [h2] at hx; cases hx
+    · intro hh; obtain ⟨x, hx, _⟩ := h.established hh; rw [h2] at hx; cases hx
+    · exact h.notConnect
+    · exact h.active
+    · intro x hx; cases hx
+    · exact h.awaitId
+    · exact h.up
+  · constructor <;> simp only [hf, hp, hn, hu, h2, haw]
+    · exact h.backoffIdle
+    · exact h.doneIdle
+    · exact h.connectingIdle
+    · intro hh; have := h.passive hh; simp_all
+    · intro c x hh hx hi; cases hx; have := h.awaitOpen c k hh h1 (by omega); simp_all
+    · intro c x hh hx hi; cases hx; have := h.awaitKa c k hh h1 (by omega); simp_all
+    · intro c x hh hx hi; cases hx; have := h.main c k hh h1 (by omega); simp_all
+    · intro hh; obtain ⟨x, hx, hpc⟩ := h.opensent hh; rw [h1] at hx; cases hx; exact ⟨k', rfl, by rw [i1]; exact hpc⟩
+    · intro hh; obtain ⟨x, hx, hpc⟩ := h.openconfirm hh; rw [h1] at hx; cases hx; exact ⟨k', rfl, by rw [i1]; exact hpc⟩
+    · intro hh; obtain ⟨x, hx, hpc⟩ := h.established hh; rw [h1] at hx; cases hx; exact ⟨k', rfl, by rw [i1]; exact hpc⟩
+    · exact h.notConnect
+    · exact h.active
+    · intro x hx; cases hx; rw [i1]; exact h.connId k h1
+    · exact h.awaitId
+    · exact h.up
+
+/-! ## the five shapes a state has between two steps -/
+
+theorem inv_idle {s : State} (hf : s.fsm = .idle) (hid : ∀ k, s.conn = some k → k.id < s.nextId)
+    (haw : ∀ c, awaited s = some c → c < s.nextId ∧ ∀ k, s.conn = some k → k.id ≠ c)
+    (hpas : s.pc = .passiveWait → s.conn = none) (hup : s.isUp = true → s.pc = .done) : Inv s := by
+  have stale : ∀ c k, awaited s = some c → s.conn = some k → k.id = c → False :=
+    fun c k h1 h2 h3 => (haw c h1).2 k h2 h3
+  constructor
+  · intro _; exact hf
+  · intro _; exact hf
+  · intro _; exact hf
+  · intro h; exact ⟨Or.inr hf, hpas h⟩
+  · intro c k hp hc hi; exact (stale c k (by simp [awaited, hp]) hc hi).elim
+  · intro c k hp hc hi; exact (stale c k (by simp [awaited, hp]) hc hi).elim
+  · intro c k hp hc hi; exact (stale c k (by simp [awaited, hp]) hc hi).elim
+  · intro h; rw [hf] at h; cases h
+  · intro h; rw [hf] at h; cases h
+  · intro h; rw [hf] at h; cases h
+  · rw [hf]; intro h; cases h
+  · intro h; rw [hf] at h; cases h
+  · exact hid
+  · intro c h; exact (haw c h).1
+  · intro h; exact Or.inr (hup h)
+
+theorem inv_passive {s : State} (hf : s.fsm = .active) (hp : s.pc = .passiveWait) (hc : s.conn = none)
+    (hup : s.isUp = false) : Inv s := by
+  constructor <;> simp_all [awaited]
+
+theorem inv_awaitOpen {s : State} {k : Conn} (hf : s.fsm = .opensent) (hp : s.pc = .awaitOpen k.id)
+    (hc : s.conn = some k) (h1 : k.openSent = true) (hid : k.id < s.nextId) (hup : s.isUp = false) : Inv s := by
+  constructor <;> simp_all [awaited]
+
+theorem inv_awaitKa {s : State} {k : Conn} (hf : s.fsm = .openconfirm) (hp : s.pc = .awaitKa k.id)
+    (hc : s.conn = some k) (h1 : k.openSent = true) (h2 : k.openRecv = true) (hid : k.id < s.nextId)
+    (hup : s.isUp = false) : Inv s := by
+  constructor <;> simp_all [awaited]
+
+theorem inv_main {s : State} {k : Conn} (hf : s.fsm = .established) (hp : s.pc = .mainLoop k.id)
+    (hc : s.conn = some k) (h1 : k.openSent = true) (h2 : k.openRecv = true) (h3 : k.kaRecv = true)
+    (hid : k.id < s.nextId) : Inv s := by
+  constructor <;> simp_all [awaited]
 
 end Exa.Session
